@@ -24,6 +24,7 @@ type Profile struct {
 	OldVersions       bool // store some definitions in older spec versions
 	NumberFormat      bool // environments may carry a number_format
 	ForceRedaction    int  // 0 = draw, 1 = none, 2 = urns
+	ListHeavy         bool // actions with list-valued definition fields (recipients, groups, labels, quick replies) are frequent and their lists long (C09: definitions are shared between sessions)
 	URNRefs           bool // templates reference the contact's URNs more often than anything else (C19)
 	NoURNQueries      bool // group queries never test URNs (the redaction policy may be switched on later)
 	RichLocalization  bool // >=2 translation languages more often
@@ -161,6 +162,7 @@ type G struct {
 	forceKind                     string
 	idiom, forceResult, forceWait bool
 	parentFlavor                  bool
+	forceResultName               string
 }
 
 func (g *G) uuid(kind int) string {
